@@ -1,0 +1,24 @@
+//go:build verif
+
+package panics
+
+// Contracts for the verif build tag only (comment-only file; see /verif/DESIGN.md).
+// C22: what recover() yields is turned into an error exactly when something was recovered, and the
+// configured callback hears about it exactly once.
+
+//@ ghost nPanicCb int        -- calls of the panic callback
+//@ func MakeHandler$cb
+//@   assumed
+//@   modifies nPanicCb
+//@   ghost nPanicCb := old(nPanicCb) + 1
+//@ func MakeHandler.func1
+//@   lenient
+//@   modifies nPanicCb, alloc
+//@   ensures (result == nil) <==> (obj == nil)
+//@   ensures obj != nil ==> dyntype(result) == typetag("RecoveredPanicErr")
+//@   ensures obj != nil && cb != nil ==> nPanicCb == old(nPanicCb) + 1
+//@   ensures (obj == nil || cb == nil) ==> nPanicCb == old(nPanicCb)
+//@   callsite MakeHandler$cb: assert $recoverObj == obj
+//@ func MakeHandler
+//@   modifies alloc
+//@   ensures result != nil
